@@ -3,4 +3,7 @@
    nat, positive, N, Z are extracted as the Coq inductives. *)
 From Coq Require Import Extraction ExtrOcamlBasic.
 From N2 Require Import Model.All.
-Extraction "n2model.ml" canon_impl canon sem ends_dirlike normal_form uses_only f17_class.
+Extraction "n2model.ml" canon_impl canon sem ends_dirlike normal_form uses_only f17_class
+  depfile_parse depfile_parse_pinned depfile_deps depfile_deps_pinned format_parse_error
+  truncate task_message task_message_pinned progress_bar mkCounts utf8_ok
+  extract_showincludes extract_showincludes_pinned find_last_line decode_status.
